@@ -117,6 +117,10 @@ def run_results(ctx, plist, name="results"):
         except Exception as ex:
             ctx.count(f"calibration-raised-{type(ex).__name__}")
             continue
+        if not (np.all(np.isfinite(out.p_cov.values)) and np.all(np.isfinite(out.p_val.values))):
+            # an exactly determined system (n = p) has no residual variance: p_cov is inf/nan (C19 looks at that)
+            ctx.count("skipped-nonfinite-p_cov")
+            continue
         e, fails = result_expr(case, out)
         for fl in fails:
             ctx.violation(f"res:{fl}:{key_of(case)}", fl, p)
